@@ -137,7 +137,8 @@ OnNotifyEnd(e) ==
   /\ m' = m
 
 \* clauses decided when a step has run to quiescence
-OnStep(e) ==
+\* (in critical-section scheduling mode a step marker is a quiescence point only when it says so)
+OnStep(e) == IF ~e.quiet THEN m' = m ELSE
   /\ m' = m
   /\ Check(l, "C05.Removed", m.term => ~e.sessions)
   \* a response delivered for an in-flight, un-cancelled call completes it (reader alive)
